@@ -46,6 +46,11 @@ CHECKS = {
    text="TPuts: every string up to length 7 (8) over the padding alphabet on terminals with and without a pad character; written bytes must be in the set the statement allows and the recorded (virtual) sleep must equal the sum of the well-formed specifications. TGoto: every database entry x all 301x301 positions against the addressing convention of the entry. TColor: every colour entry x all 302x302 (fg,bg) pairs decoded through the reference terminal's SGR interpreter (folding onto 0-7 on 8-colour terminals, eliding negative / out-of-range components). Complete over the stated domains.",
    note="terminfo.go is built with package time replaced by a virtual clock (overlay, AST rewrite of the import only); ill-formed-but-terminated padding may be treated either way; non-SGR colour strings are not decoded.",
    design="2/C15"),
+ "C14": dict(level="model_checking",
+   technique="complete static enumeration of the live database + explicit exploration of all ordered lookup pairs (triples over a subset) from a restored database under every environment setting",
+   text="Static: every registered name and alias (listed from the live map) resolves to an entry with cursor addressing; every parameterized field is a well-formed terminfo program using at most the parameters tcell supplies; unparameterized fields carry no parameter constructs; Colors agrees with the colour strings, each index decoded through the reference SGR interpreter; key table prefix-free. Histories: about 340 names (registered x variant suffixes + unknown names); for every ordered pair under 6 (thorough 12) COLORTERM/TCELL_TRUECOLOR settings the second lookup's result must deep-equal the same lookup on a freshly restored database, and each single lookup is checked against the documented synthesis / environment semantics. States = (database state after one lookup), transitions = lookups executed on the real LookupTerminfo.",
+   note="Database snapshot/restore is a verif accessor (deep copy); tcell.LookupTerminfo's infocmp fallback is outside the built-in database and not exercised.",
+   design="2/C14"),
  # --- new checks above this line ---
 }
 
